@@ -51,7 +51,7 @@ import (
 
 const (
 	c29CkptOneIn    = 3
-	c29SimOneIn     = 8
+	c29SimOneIn     = 10
 	c29BuildID      = "verif-nocchk-c29"
 	c29WorkerCases  = 40 // resume jobs served by one child process before it is replaced
 	sigCkptDiffers  = "ckpt-vs-uninterrupted:"
@@ -435,7 +435,9 @@ func (k *ckptLeg) run(f kit.Failer, c c29Case, plain c29Result, plainEvents []dl
 		return nil, false
 	}
 	if post.TimedOut {
-		f.Fatalf("harness: resumed run not idle at the virtual-time bound")
+		// the uninterrupted run of the same case went idle within the same bound
+		s.Fail(f, c, sigCkptDiffers+"not-idle", "%sthe engine is still busy at the virtual-time bound %d ps; the uninterrupted run went idle at %d ps", where, uint64(plain.bound), plain.endPs)
+		return nil, false
 	}
 
 	union := append(append([]dlvEvent{}, pre...), post.Events...)
